@@ -420,25 +420,7 @@ impl Prop for C04 {
                     let mut by_hand = trees::EmbeddedOwned { files: owned.files.clone(), dirs: owned.dirs.clone() };
                     EmbeddedHolder::new(owned).with(|e| check_concurrently("embedded", e, &m, c.threads, &mut out));
                     if !out.failed() && c.opts.order != 0 {
-                        let o = c.opts.order as usize;
-                        if o % 2 == 1 {
-                            by_hand.files.reverse();
-                            by_hand.dirs.reverse();
-                        }
-                        if !by_hand.files.is_empty() {
-                            let n = by_hand.files.len();
-                            by_hand.files.rotate_left((o / 2) % n);
-                        }
-                        if !by_hand.dirs.is_empty() {
-                            let n = by_hand.dirs.len();
-                            by_hand.dirs.rotate_left((o / 2) % n);
-                        }
-                        for (_, entries) in by_hand.dirs.iter_mut() {
-                            if !entries.is_empty() {
-                                let n = entries.len();
-                                entries.rotate_left((o / 3) % n);
-                            }
-                        }
+                        trees::reorder_embedded(&mut by_hand, c.opts.order);
                         EmbeddedHolder::new(by_hand).with(|e| check_concurrently("embedded-by-hand", e, &m, c.threads, &mut out));
                     }
                 }
